@@ -135,3 +135,12 @@ BUILT['C16'] = (
     "and random angles / translations <= 1e3 and compared with the numeric call to 1e-12; entries that are structurally 0 or 1 "
     "must stay exact; a symbolic call may not raise where the numeric form is accepted",
     NOTE, "DESIGN.md 4 C16")
+BUILT['C17'] = (
+    "boundary snapshotter (deep byte-level snapshots of arguments, operands and receivers before/after every call, also when "
+    "it raises), double evaluation for determinism, and a history pool in which results (views included) are fed to later "
+    "calls while every live value is re-verified after each call",
+    "every catalogued callable of the base package and the classes (180+ entries, list and ndarray forms), every public "
+    "member and operator dunder of the 17 classes enumerated by reflection (single- and multi-valued receivers, scalar / "
+    "vector / object operands, augmented operators), and random 150-call histories over a pool of arrays, library views and "
+    "objects incl. default-constructed ones and the documented list mutators (which may change their receiver only)",
+    NOTE, "DESIGN.md 4 C17")
